@@ -164,12 +164,19 @@ CONTRACTS.update(
     }
 )
 
+# accepted widths of a white-space token under the option value n (the tests of analyze_whitespace_token, in its order)
+ACCEPTS = (
+    "(({w} == {n}) if isinstance({n}, int) else (({w} >= int({n}[2:])) if {n}.startswith('>=') else (({w} >= int({n}[1:]) + 1) if {n}.startswith('>') else"
+    " (({w} <= int({n}[2:])) if {n}.startswith('<=') else (({w} <= int({n}[1:]) - 1) if {n}.startswith('<') else (({w} >= int({n}[:-1])) if {n}.endswith('+') else True))))))"
+)
 VF_WS = (
     "self.violations[k].action is not None"
     " and (len({V}) == 3 or len({V}) == 2)"
     " and implies(self.number_of_spaces == 0, len({V}) == 3 and isinstance({V}[1], parser.whitespace))"
     " and implies(self.violations[k].action['spaces'] == 0, len({V}) == 3 and isinstance({V}[1], parser.whitespace))"
     " and implies(isinstance(self.number_of_spaces, int), self.violations[k].action['spaces'] == self.number_of_spaces)"
+    # C10: the width the analysis asks for is a width the same analysis accepts (otherwise the rule reports again right after its own fix)
+    " and " + ACCEPTS.format(w="self.violations[k].action['spaces']", n="self.number_of_spaces")
 ).format(V=V_.format(k="k"), NB=NB)
 
 WSFIELDS = {"vsg.violation.New.action": "opt[rec{spaces:int}]", "vsg.violation.New.remap": "bool", "vsg.violation.New.fix_blank_lines": "bool", "vsg.violation.New.sSolution": "str"}
@@ -188,6 +195,8 @@ CONTRACTS.update(
             # a valid option value (docs/configuring_whitespace_rules.rst): an integer, or a string '>N', '>=N', '<N', '<=N', 'N+';
             # int() of a malformed N raises ValueError
             "isinstance(self.number_of_spaces, int) or self.number_of_spaces.startswith('>') or self.number_of_spaces.startswith('<') or self.number_of_spaces.endswith('+')",
+            # ... and only one of these forms ('<3+' is not an option value)
+            "isinstance(self.number_of_spaces, int) or not self.number_of_spaces.endswith('+') or not (self.number_of_spaces.startswith('>') or self.number_of_spaces.startswith('<'))",
             ],
             raises=["ValueError"],
             modifies=["self.violations"],
